@@ -25,7 +25,7 @@ from contracts import c_lowering as CL
 from olvc import ops, sym
 from olvc.evaluator import Machine
 from olvc.interp import HFn, IGen, IRaise, IStop
-from olvc.oblig import paths_or_undecided
+from olvc.oblig import fail_or_gap, paths_or_undecided
 from olvc.runner import explore
 from olvc.sym import Opaque, Seg, SInt, Unsupported, ctx, tagstr, zint
 from olvc.tmpl import Hole
@@ -325,7 +325,7 @@ def g_iter_branch_steps(R, tier):
                 continue
             for p in paths:
                 if p.kind != "ok":
-                    R.fail(f"{nm}/no-unexpected-raise", repr(p.value))
+                    fail_or_gap(R, f"{nm}/no-unexpected-raise", p)
                     continue
                 v = p.value
                 st = v["stack"]
@@ -377,7 +377,7 @@ def g_iter_branch_steps(R, tier):
     if paths_or_undecided(R, nm + "/paths", paths):
         for p in paths:
             if p.kind != "ok":
-                R.fail(f"{nm}/no-unexpected-raise", repr(p.value))
+                fail_or_gap(R, f"{nm}/no-unexpected-raise", p)
                 continue
             v = p.value
             st = v["stack"]
